@@ -87,6 +87,10 @@ func firstLine(s string) string {
 	return s
 }
 
+func undecidedLeadingZero(m mutation) bool {
+	return m.op == "bstr-extend" && strings.Contains(m.class, "natBytes") && strings.HasSuffix(m.class, "(front)")
+}
+
 // discoverMode (VERIF_C08_DISCOVER=1) records violations as classes instead of failing; used
 // while cataloguing, never by the driver.
 func discoverMode() bool { return os.Getenv("VERIF_C08_DISCOVER") != "" }
@@ -261,6 +265,16 @@ func runTamper(t *rapid.T, test string, in inst, what string) {
 	ctxV, err := cs.build(verifierID)
 	if err != nil {
 		t.Fatalf("harness: context: %v", err)
+	}
+	if undecidedLeadingZero(m) {
+		// A zero byte PREPENDED to the big-endian bytes of a natural number: the integer is unchanged, but the library's
+		// re-encoding keeps the announced length, so "same values" cannot be decided by comparing re-encodings. Only
+		// "no panic" is asserted for this mutant.
+		var verr error
+		vlib.NoPanic(t, "Verify of a proof with a zero-padded natural number", func() { verr = in.Verify(cn, ctxV, seed+3, "", false, m.bytes, false) })
+		vlib.Case(test, vlib.Desc(in.Proto(), cn, in.Shape(), in.Group(), "tamper:"+m.op, "undecided:leading-zero"), false,
+			"op="+m.op, fmt.Sprintf("verdict=undecided:leading-zero:accepted=%v", verr == nil))
+		return
 	}
 	if crashRisk(in, m) {
 		vlib.Excluded(knownNilComponent)
